@@ -180,6 +180,11 @@ func FindSequences(dataDir, dbName string) ([]SequenceData, error) {
 		return nil, fmt.Errorf("database %q not found", dbName)
 	}
 
+	return findSequencesOfDB(dataDir, dbOID)
+}
+
+// findSequencesOfDB finds the sequences of the database stored under base/<dbOID>
+func findSequencesOfDB(dataDir string, dbOID uint32) ([]SequenceData, error) {
 	basePath := filepath.Join(dataDir, "base", strconv.FormatUint(uint64(dbOID), 10))
 
 	// Read pg_class to find sequences (relkind = 'S')
@@ -235,12 +240,37 @@ func ScanAllSequences(dataDir string) (map[string][]SequenceData, error) {
 		return nil, err
 	}
 
-	for _, db := range ParsePGDatabase(dbData) {
+	// pg_database is read and parsed once (not once more per row), and every database directory is
+	// scanned once: a damaged pg_database can hold thousands of rows naming the same database.
+	// A name stands for the first row that carries it, as in FindSequences.
+	dbs := ParsePGDatabase(dbData)
+	oidOf := make(map[string]uint32, len(dbs))
+	for _, db := range dbs {
+		if _, ok := oidOf[db.Name]; !ok {
+			oidOf[db.Name] = db.OID
+		}
+	}
+	type scanned struct {
+		seqs []SequenceData
+		err  error
+	}
+	byOID := make(map[uint32]scanned)
+
+	for _, db := range dbs {
 		if strings.HasPrefix(db.Name, "template") {
 			continue
 		}
 
-		seqs, err := FindSequences(dataDir, db.Name)
+		dbOID := oidOf[db.Name]
+		if dbOID == 0 {
+			continue // FindSequences: database not found
+		}
+		sc, ok := byOID[dbOID]
+		if !ok {
+			sc.seqs, sc.err = findSequencesOfDB(dataDir, dbOID)
+			byOID[dbOID] = sc
+		}
+		seqs, err := sc.seqs, sc.err
 		if err != nil {
 			continue
 		}
